@@ -158,9 +158,9 @@ func H_C11_lockDiscipline() {
 		vfGuardMap("InMemLoader.files", l.files, &l.lock)
 		vfGuardMap("cachedStructsFieldIndex", cachedStructsFieldIndex, &cachedStructsMutex)
 		c11Do(set, l, c11Ops[a])
-		vfAssert(vfLocksHeld() == 0, "no lock is left held")
+		vfAssert(vfLocksHeld() == 0, "lock: no lock is left held after the operation")
 		c11Do(set, l, c11Ops[b])
-		vfAssert(vfLocksHeld() == 0, "no lock is left held")
+		vfAssert(vfLocksHeld() == 0, "lock: no lock is left held after the operation")
 		vfReach("done")
 		vfAssert(c11Snapshot(l, "abc") && c11Snapshot(l, "abcdefghijklmnop"), "content handed out by Open is not rewritten by a later Set")
 		return
